@@ -143,14 +143,29 @@ def check_tree(ctx, t, tag):
           confirm=lambda w: f"(result accepts: {impl.accepts_input(w)}, operation on operand verdicts: {sem(t, w)})")
 
 
-def check_conversions(ctx, ddef):
+def check_conversions(ctx, ddef, mutable=False):
+    """mutable: the operand is built under allow_mutable_automata = True from its own deep copy (it keeps plain dicts
+    and sets) and the calls run under that setting: the conversions must give the same answers."""
+    import copy
+    import automata.base.config as cfg
+    saved = cfg.allow_mutable_automata
+    if mutable:
+        cfg.allow_mutable_automata = True
+        ctx.tally("conversions_mutable_mode")
+    try:
+        _check_conversions(ctx, copy.deepcopy(ddef) if mutable else ddef, mutable)
+    finally:
+        cfg.allow_mutable_automata = saved
+
+
+def _check_conversions(ctx, ddef, mutable):
     d = mk_dfa(ddef)
     sy = enc.SymMap(d.input_symbols)
     te = enc.enc_dfa(d, None, sy)
     # to_complete (default trap and custom trap)
     for trap in (None, "TRAP"):
         r = outcome(lambda: d.to_complete(trap) if trap else d.to_complete())
-        replay = {"kind": "to_complete", "def": repr(ddef), "trap": trap}
+        replay = {"kind": "to_complete", "def": repr(ddef), "trap": trap, "mutable": mutable}
         if r[0] != "ok":
             ctx.violation(f"to_complete raised {r[2]}", replay)
             continue
@@ -163,7 +178,7 @@ def check_conversions(ctx, ddef):
             ctx.violation(f"to_complete left transitions undefined: {missing[:3]}", replay)
     for kw in (dict(minify=False), dict(), dict(retain_names=True)):
         r = outcome(lambda: d.to_partial(**kw))
-        replay = {"kind": "to_partial", "def": repr(ddef), "kwargs": repr(kw)}
+        replay = {"kind": "to_partial", "def": repr(ddef), "kwargs": repr(kw), "mutable": mutable}
         if r[0] != "ok":
             ctx.violation(f"to_partial({kw}) raised {r[2]}", replay)
         else:
@@ -206,6 +221,8 @@ def run(ctx):
         if i % 3 == 0:
             check_conversions(ctx, gen.rand_dfa_def(rng, alphabet=sigma))
             check_conversions(ctx, gen.rand_dfa_with_dead(rng, alphabet=sigma))
+            if i % 6 == 0:
+                check_conversions(ctx, gen.rand_dfa_with_dead(rng, alphabet=sigma), mutable=True)
     # two sparse partial operands over three symbols: at most pairs of states the two sets of defined symbols are incomparable
     for _ in range(ctx.n(60, 900)):
         sigma = rng.choice(["abc", "xyz"])
@@ -256,5 +273,5 @@ def replay(ctx, case):
     if case["kind"] == "tree":
         check_tree(ctx, load_def(case["tree"]), "replay")
     elif case["kind"] in ("to_complete", "to_partial"):
-        check_conversions(ctx, load_def(case["def"]))
+        check_conversions(ctx, load_def(case["def"]), mutable=case.get("mutable", False))
     print("replay:", "VIOLATION reproduced" if ctx.violations else "no disagreement")
